@@ -93,7 +93,10 @@ def check(run):
     run.floor("loader modules", len(mods), 20)
 
     # ------------------------------------------------------------------ R1 close discipline
-    pfa = ix.func("trimesh.exchange.load:_parse_file_args")
+    pfa = ix.func_by_role("trimesh.exchange.load:_parse_file_args",
+                          lambda f_: any(isinstance(c_, ast.Call) and isinstance(c_.func, ast.Name) and c_.func.id == "open" for c_ in ast.walk(f_.node))
+                          and any(isinstance(k_, ast.keyword) and k_.arg == "was_opened" for k_ in ast.walk(f_.node)),
+                          "the function that opens the file and records `was_opened`")
     callers = []
     for m in ix.modules.values():
         for f in funcs_of(ix, m):
@@ -176,6 +179,8 @@ def check(run):
                 while getattr(top, "parent", None) is not None:
                     top = top.parent
                 key = (m.name, top.name)
+                if top is pfa:
+                    key = ("trimesh.exchange.load", "_parse_file_args")  # the opener of the load path, by role (it may have been renamed)
                 ok = id(n) in with_calls or key in OPEN_TABLE
                 why = "with-item" if id(n) in with_calls else OPEN_TABLE.get(key, "NOT a with-item and not in the reviewed table")
                 run.instance("R1", f.where, f"`{ast.unparse(n)[:60]}`: {why}", ok)
@@ -290,7 +295,9 @@ def check(run):
     stl = ix.func("trimesh.exchange.stl:load_stl_binary")
     guard_rule(run, ix, stl, bulk=lambda c: "frombuffer" in ast.unparse(c.func) and any("read()" in ast.unparse(a) for a in c.args),
                what="np.frombuffer(file_obj.read(), ...)", exc="HeaderError")
-    pb = ix.func("trimesh.exchange.ply:_ply_binary")
+    pb = ix.func_by_role("trimesh.exchange.ply:_ply_binary",
+                         lambda f_: f_.parent is None and any(isinstance(c_, ast.Call) and ast.unparse(c_.func) == "populate_data" for c_ in ast.walk(f_.node)),
+                         "the binary PLY reader that calls populate_data")
     guard_rule(run, ix, pb, bulk=lambda c: ast.unparse(c.func) == "populate_data", what="populate_data(file_obj, elements)", exc="ValueError", nested=True)
     # ------------------------------------------------------------------ R5 regular expressions
     run.rule("R5", "no regular expression used by a loader nests an unbounded repetition inside another (the shape that backtracks exponentially)")
